@@ -66,6 +66,7 @@ type framePlan struct {
 	prebuilt  proto.Message // pulsar producer: message built at plan time with a tape-drawn history
 	roOps     []int         // read-only calls the producer makes on its message before Marshal
 	staleSel  int           // >0: the producer clears a populated map/list field and then reads through views obtained before
+	accumulate bool         // the consumer merge-decodes this frame into its accumulator for the type (earlier frames' buffers are long recycled by then)
 }
 
 type sentFrame struct {
@@ -87,6 +88,7 @@ type digestRec struct {
 	cons   int
 	where  string
 	digest string
+	chain  []int // accumulator digests: the sent frames merged so far, in order
 }
 
 type world struct {
@@ -429,6 +431,16 @@ func staleViewReads(m proto.Message, sel int) (diff string) {
 	return ""
 }
 
+// safeMerge merge-decodes a frame into an existing message.
+func safeMerge(buf []byte, msg proto.Message, p *framePlan) (err error) {
+	defer func() {
+		if r := recover(); r != nil {
+			err = fmt.Errorf("decoder panicked: %v", r)
+		}
+	}()
+	return proto.UnmarshalOptions{DiscardUnknown: p.discard, AllowPartial: true, Merge: true}.Unmarshal(buf, msg)
+}
+
 // safeHandlerOp: a read-only call that panics on an odd message shape (for
 // instance a nil message map value left by a key-only map entry) is another
 // property's business; here it only must not write.
@@ -490,6 +502,7 @@ func runPipeline(c *simrun.Ctx) *simrun.Violation {
 				}
 			}
 			fp.mergeTwice = t.Chance("merge-twice", 1, 5)
+			fp.accumulate = t.Chance("accumulate", 1, 4)
 			fp.api = t.Draw("api", 4)
 			fp.prefixLen = t.Draw("prefixlen", 6)
 			fp.prefixCap = fp.prefixLen + []int{0, 1, 16, 4096}[t.Draw("prefixcap", 4)]
@@ -709,6 +722,12 @@ func runPipeline(c *simrun.Ctx) *simrun.Violation {
 		ord := taskOrd()
 		sched.Add(func(_ *simhook.Task) {
 			simhook.SetTaskOrd(ord)
+			// per message type: a long-lived message this consumer keeps merging frames into
+			type accum struct {
+				msg   proto.Message
+				chain []int
+			}
+			accs := map[int]*accum{}
 			for {
 				simhook.WaitOn(waitInbox, ci)
 				id, sf := w.takeInbox(ci)
@@ -726,14 +745,38 @@ func runPipeline(c *simrun.Ctx) *simrun.Violation {
 				atomic.AddUint32(&w.slotSync[sf.slot], 1) // release: done with the buffer
 				w.releaseSlot(sf.slot)
 				if err != nil {
-					lg.digests = append(lg.digests, digestRec{id, ci, "consumer", "unmarshal-error: " + err.Error()})
+					lg.digests = append(lg.digests, digestRec{id, ci, "consumer", "unmarshal-error: " + err.Error(), nil})
 					msg = nil
 				} else {
 					d, derr := simval.CanonStruct(msg)
 					if derr != nil {
 						d = "walk-error: " + derr.Error()
 					}
-					lg.digests = append(lg.digests, digestRec{id, ci, "consumer, right after Unmarshal", d})
+					lg.digests = append(lg.digests, digestRec{id, ci, "consumer, right after Unmarshal", d, nil})
+				}
+				if sf.plan.accumulate && err == nil {
+					// merge the same frame into the accumulator too (from the private
+					// control copy of its bytes: the pool buffer is already released)
+					a := accs[sf.plan.typ]
+					if a == nil {
+						a = &accum{msg: corpus[sf.plan.typ].ProtoReflect().Type().New().Interface()}
+						accs[sf.plan.typ] = a
+					}
+					in := append([]byte{}, sf.control...)
+					merr := safeMerge(in, a.msg, sf.plan)
+					for i := range in {
+						in[i] = 0xEE // the consumer re-uses its scratch copy at once
+					}
+					if merr == nil {
+						a.chain = append(a.chain, id)
+						d, derr := simval.CanonStruct(a.msg)
+						if derr != nil {
+							d = "walk-error: " + derr.Error()
+						}
+						lg.digests = append(lg.digests, digestRec{id, ci, fmt.Sprintf("consumer %d accumulator after %d merges", ci, len(a.chain)), d, append([]int{}, a.chain...)})
+					} else {
+						delete(accs, sf.plan.typ) // a failed merge leaves the accumulator in an unspecified state
+					}
 				}
 				for _, h := range []int{sf.plan.handler, sf.plan.handler2} {
 					if h < 0 {
@@ -778,7 +821,7 @@ func runPipeline(c *simrun.Ctx) *simrun.Violation {
 							if derr != nil {
 								d = "walk-error: " + derr.Error()
 							}
-							lg.digests = append(lg.digests, digestRec{hd.it.frame, hd.it.cons, fmt.Sprintf("handler %d action %d", hi, ai), d})
+							lg.digests = append(lg.digests, digestRec{hd.it.frame, hd.it.cons, fmt.Sprintf("handler %d action %d", hi, ai), d, nil})
 						} else {
 							before := simval.TakeSnapshot(hd.it.msg)
 							safeHandlerOp(hd.it.msg, a.kind)
@@ -800,7 +843,7 @@ func runPipeline(c *simrun.Ctx) *simrun.Violation {
 				if derr != nil {
 					d = "walk-error: " + derr.Error()
 				}
-				lg.digests = append(lg.digests, digestRec{hd.it.frame, hd.it.cons, fmt.Sprintf("handler %d at end of run", hi), d})
+				lg.digests = append(lg.digests, digestRec{hd.it.frame, hd.it.cons, fmt.Sprintf("handler %d at end of run", hi), d, nil})
 			}
 		})
 	}
@@ -898,6 +941,32 @@ func runPipeline(c *simrun.Ctx) *simrun.Violation {
 	for _, lg := range logs {
 		for _, d := range lg.digests {
 			looks++
+			if d.chain != nil {
+				// control: the same frames merged in the same order, from private copies
+				cm := corpus[w.sent[d.chain[0]].plan.typ].ProtoReflect().Type().New().Interface()
+				want := ""
+				for _, id := range d.chain {
+					sf := &w.sent[id]
+					if err := safeMerge(append([]byte{}, sf.control...), cm, sf.plan); err != nil {
+						want = "unmarshal-error: " + err.Error()
+						break
+					}
+				}
+				if want == "" {
+					var derr error
+					if want, derr = simval.CanonStruct(cm); derr != nil {
+						want = "walk-error: " + derr.Error()
+					}
+				}
+				st.Add("accumulator_looks", 1)
+				if d.digest != want {
+					sf := &w.sent[d.sent]
+					return &simrun.Violation{Class: "C07:held-message-differs-from-control-decode", Detail: map[string]interface{}{
+						"type": string(corpus[sf.plan.typ].ProtoReflect().Descriptor().FullName()), "where": d.where, "chain_of_sent_frames": d.chain,
+						"held": clip(d.digest, 2000), "control": clip(want, 2000), "plan": describePlan(plans)}}
+				}
+				continue
+			}
 			if d.digest != control[d.sent] {
 				sf := &w.sent[d.sent]
 				return &simrun.Violation{Class: "C07:held-message-differs-from-control-decode", Detail: map[string]interface{}{
